@@ -228,6 +228,47 @@ fn probes(model: &mut model::Model, rep: &mut Report) {
     }
 }
 
+/// Same column names inside and outside the subquery (the generated tables use unique names):
+/// the unqualified spelling must answer like the qualified one, on every repetition.
+fn same_name_probes(rep: &mut Report) {
+    let setup = [
+        "CREATE TABLE l1 (k INTEGER, g INTEGER)",
+        "CREATE TABLE l2 (k INTEGER, v INTEGER)",
+        "INSERT INTO l1 VALUES (1, 1), (2, 2), (3, 3), (NULL, 4), (5, 5)",
+        "INSERT INTO l2 VALUES (1, 2), (3, 2), (5, 0), (NULL, 2)",
+    ];
+    let pairs = [
+        ("SELECT k FROM l1 WHERE k IN (SELECT k FROM l2 WHERE v = 2)", "SELECT l1.k FROM l1 WHERE l1.k IN (SELECT l2.k FROM l2 WHERE l2.v = 2)", "((I1) (I3))"),
+        ("SELECT k FROM l1 WHERE g > 0 AND k IN (SELECT k FROM l2)", "SELECT l1.k FROM l1 WHERE l1.g > 0 AND l1.k IN (SELECT l2.k FROM l2)", "((I1) (I3) (I5))"),
+        ("SELECT k FROM l1 WHERE EXISTS (SELECT 1 FROM l2 WHERE l2.k = l1.k AND v = 2)", "SELECT l1.k FROM l1 WHERE EXISTS (SELECT 1 FROM l2 WHERE l2.k = l1.k AND l2.v = 2)", "((I1) (I3))"),
+    ];
+    for (unq, qual, expect) in pairs.iter() {
+        let mut db = Db::new();
+        for s in setup.iter() {
+            db.must(s);
+        }
+        rep.case(&format!("same-name probe {}", unq), true);
+        rep.count("probe_same_column_names");
+        for round in 0..4 {
+            let a = db.query(unq);
+            let b = db.query(qual);
+            let ok = match (&a, &b) {
+                (Out::Rows(x), Out::Rows(y)) => canon::rows_bag(x) == *expect && canon::rows_bag(y) == *expect,
+                _ => false,
+            };
+            if !ok {
+                rep.fail(
+                    FailKind::Oracle,
+                    None,
+                    "IN / EXISTS with the same column name inside and outside the subquery: wrong or unstable answer",
+                    &format!("{};\n-- round {}\n{};\n  => {}\n{};\n  => {}\n-- expected {}", setup.join(";\n"), round, unq, a.brief(), qual, b.brief(), expect),
+                );
+                break;
+            }
+        }
+    }
+}
+
 fn main() {
     engine::silence_panics();
     let args = Args::parse("C05");
@@ -240,6 +281,7 @@ fn main() {
     rep.assumptions.push("the engine's typed hash keys (Integer vs Bigint) are not exercised: all key columns are INTEGER or VARCHAR".into());
     let mut model = args.model();
     probes(&mut model, &mut rep);
+    same_name_probes(&mut rep);
     let mut rng = Rng::new(args.seed);
     let n = args.n(500, 15000);
     for i in 0..n {
